@@ -820,6 +820,8 @@ class Interp(object):
             y = self.operand(st, rv["b"])
             tya = self.operand_ty(rv["a"])
             return self.binop(st, rv["op"], x, y, tya, None)
+        if k == "unop" and rv.get("op") == "PtrMetadata":
+            return self.slice_len(self.operand(st, rv.get("a") or rv.get("arg") or rv.get("operand")))
         if k == "unop":
             x = self.operand(st, rv.get("a") or rv.get("arg") or rv.get("operand"))
             o = rv["op"]
